@@ -216,6 +216,45 @@ pub fn enumerate_field_sets(file: &[u8]) -> Vec<Vec<Corrupt>> {
     out
 }
 
+/// Related field pairs (offset/length, start/end): both members set to boundary values at once, so
+/// that a sanity check relating the two cannot hide what lies behind it.
+pub fn enumerate_field_pairs(file: &[u8]) -> Vec<Vec<Corrupt>> {
+    let mut out = Vec::new();
+    let fields = all_fields(file);
+    let find = |name: &str| fields.iter().find(|f| f.1 == name).cloned();
+    let mut pairs: Vec<(String, String)> = vec![("header.num_members".into(), "header.num_members_by_params".into()), ("header.num_classes".into(), "header.num_members".into())];
+    let Some(h) = Header::read(file) else { return out };
+    for c in 0..(h.num_classes as usize).min(6) {
+        pairs.push((format!("class[{}].members_offset", c), format!("class[{}].members_len", c)));
+        pairs.push((format!("class[{}].members_by_params_offset", c), format!("class[{}].members_by_params_len", c)));
+    }
+    for (sec, n) in [("member", h.num_members as usize), ("by_params", h.num_members_by_params as usize)] {
+        for m in 0..n.min(8) {
+            pairs.push((format!("{}[{}].startline", sec, m), format!("{}[{}].endline", sec, m)));
+            pairs.push((format!("{}[{}].original_startline", sec, m), format!("{}[{}].original_endline", sec, m)));
+            pairs.push((format!("{}[{}].startline", sec, m), format!("{}[{}].original_startline", sec, m)));
+        }
+    }
+    for (a, b) in pairs {
+        let (Some(fa), Some(fb)) = (find(&a), find(&b)) else { continue };
+        let vals = |f: &(usize, String, u32)| -> Vec<u32> {
+            let mut v = vec![0u32, 1, f.2.wrapping_sub(1), f.2, f.2.wrapping_add(1), 1 << 31, u32::MAX - 1, u32::MAX];
+            v.sort_unstable();
+            v.dedup();
+            v
+        };
+        for va in vals(&fa) {
+            for vb in vals(&fb) {
+                out.push(vec![
+                    Corrupt::SetU32 { off: fa.0, value: va, what: fa.1.clone() },
+                    Corrupt::SetU32 { off: fb.0, value: vb, what: fb.1.clone() },
+                ]);
+            }
+        }
+    }
+    out
+}
+
 /// Offsets of string starts (LEB128 prefix positions) referenced by any record.
 fn string_offsets(file: &[u8], h: &Header, l: &Layout) -> Vec<usize> {
     let mut offs = Vec::new();
@@ -489,7 +528,7 @@ pub fn plan_run(seed: u64, thorough: bool, run: u64, corpus: &[(String, Vec<u8>)
         if thorough {
             gen::gen_case(&mut rng, 10, 12).1
         } else {
-            gen::gen_case(&mut rng, 5, 7).1
+            gen::gen_case_small(&mut rng, 5, 7).1
         }
     } else {
         corpus.get((run - n_gen) as usize)?.1.clone()
@@ -508,6 +547,7 @@ pub fn plan_run(seed: u64, thorough: bool, run: u64, corpus: &[(String, Vec<u8>)
     let mut images: Vec<Vec<Corrupt>> = Vec::new();
     if !thorough {
         images = enumerate_field_sets(&file);
+        images.extend(enumerate_field_pairs(&file));
         // a few seeded multi-kind images as well
         let all: Vec<u8> = (0..10).collect();
         for _ in 0..40 {
@@ -729,7 +769,7 @@ pub fn main(env: &Env) -> i32 {
         )
     } else {
         format!(
-            "{} seeded-generated mappings (0..5 classes x 0..7 members) + {} small corpus files; per file EVERY 32-bit field (6 header, 7 per class, 9 per member, 9 per by-params entry) is set to EVERY boundary value {{0,1,2,7,100,bound-1,bound,bound+1,2^31,2^32-2,2^32-1}} (bound = the count/length the field is compared with), single fault, plus 40 seeded single corruptions of the other kinds; every accepted image is driven with the query universe sample incl. lines 0,1,2^32-2..2^32,usize::MAX. Exhaustive per file over (field x boundary value). distinct_nontrivial = damaged images accepted by parse (distinct by construction per file).",
+            "{} seeded-generated mappings (0..5 classes x 0..7 members) + {} small corpus files; per file EVERY 32-bit field (6 header, 7 per class, 9 per member, 9 per by-params entry) is set to EVERY boundary value {{0,1,2,7,100,bound-1,bound,bound+1,2^31,2^32-2,2^32-1}} (bound = the count/length the field is compared with), single fault; every related field pair (offset/len of a class's member and by-params ranges, start/end and original start/end lines of the first members, header counts) set to every combination of {{0,1,bound-1,bound,bound+1,2^31,2^32-2,2^32-1}}; plus 40 seeded single corruptions of the other kinds; every accepted image is driven with the query universe sample incl. lines 0,1,2^32-2..2^32,usize::MAX. Exhaustive per file over (field x boundary value). distinct_nontrivial = damaged images accepted by parse (distinct by construction per file).",
             n_gen,
             corpus.len()
         )
